@@ -15,9 +15,10 @@
 (*  strict:  the Pll.tla variables are advanced by Pll!Do on the same      *)
 (*           inputs; mode and call must be the ones the specification      *)
 (*           computes (drift only).                                        *)
-(* Failing clauses are collected in mbad / sbad (event number, clause) and *)
-(* printed by MonitorReport / StrictReport at the end of the trace, so     *)
-(* that one run names every failing clause; PllTrace_first.cfg has the     *)
+(* Every failing (event, clauses) pair is printed when the event is        *)
+(* consumed (MBAD / SBAD lines) and counted in mbad / sbad; MonitorReport /*)
+(* StrictReport print the totals at the end of the trace, so that one run  *)
+(* names every failing clause of every event.  PllTrace_first.cfg has the  *)
 (* ordinary invariant MonitorClean (stops at the first failure and prints  *)
 (* the behaviour: for short traces).                                       *)
 (***************************************************************************)
@@ -48,7 +49,6 @@ INSTANCE Pll
 
 Trace == ndJsonDeserialize("trace.ndjson")
 N == Len(Trace)
-MaxPerClause == 12      \* failing events kept per clause (a frequent failure must not hide a rare one)
 
 tvars == <<mode, epoch, t0, t, now, clkEpoch, estart, act, lastIn, hist,
            l, oNow, oCep, oCep2, oMode, oEstart, oLi, mbad, sbad>>
@@ -108,17 +108,15 @@ SFailing(R) ==
   (IF SLogged(R) THEN << >> ELSE <<"Logged">>) \o
   (IF SAct(R) THEN << >> ELSE <<"Act">>)
 
-Count(bad, name) == Len(SelectSeq(bad, LAMBDA e : e[2] = name))
-AddBad(bad, names, n) ==
-  LET keep == SelectSeq(names, LAMBDA c : Count(bad, c) < MaxPerClause)
-  IN bad \o [i \in DOMAIN keep |-> <<n, keep[i]>>]
+\* print the failing clauses of event n (TRUE either way)
+Say(marker, names, n) == names = << >> \/ PrintT(<<marker, ToJson([l |-> n, c |-> names])>>)
 
 \* ----------------------------------------------------------------- behaviour
 TInit ==
   /\ Init
   /\ l = 0
   /\ oNow = Time0 /\ oCep = 0 /\ oCep2 = 0 /\ oMode = 0 /\ oEstart = Time0 /\ oLi = NoIn
-  /\ mbad = << >> /\ sbad = << >>
+  /\ mbad = 0 /\ sbad = 0
 
 Reset(R) ==
   /\ mode' = 0 /\ epoch' = 0 /\ t0' = Time0 /\ t' = Time0 /\ now' = Time0
@@ -142,8 +140,8 @@ Upd(R) ==
   /\ oMode' = R.mode
   /\ oEstart' = IF R.cep2 # R.cep THEN now1 ELSE es1
   /\ oLi' = li
-  /\ mbad' = AddBad(mbad, MFailing(R, li), l')
-  /\ sbad' = AddBad(sbad, SFailing(R), l')
+  /\ mbad' = mbad + Len(MFailing(R, li)) /\ Say("MBAD", MFailing(R, li), l')
+  /\ sbad' = sbad + Len(SFailing(R)) /\ Say("SBAD", SFailing(R), l')
 
 TNext ==
   /\ l < N
@@ -153,11 +151,11 @@ TNext ==
 TSpec == TInit /\ [][TNext]_tvars
 
 \* -------------------------------------------------------------- verdicts
-MonitorClean == mbad = << >>
-StrictClean  == sbad = << >>
+MonitorClean == mbad = 0
+StrictClean  == sbad = 0
 \* End-of-trace reports: always TRUE (so that TLC does not print a behaviour of
-\* N states), the list of failing (event, clause) pairs is read by checks/c19.py;
-\* an empty list means every monitor / strict clause held on every event.
-MonitorReport == l = N => PrintT(<<"MBAD", ToJson(mbad)>>)
-StrictReport  == l = N => PrintT(<<"SBAD", ToJson(sbad)>>)
+\* N states); checks/c19.py reads the MBAD / SBAD lines and these totals.  A
+\* total of 0 means every monitor / strict clause held on every event.
+MonitorReport == l = N => PrintT(<<"MDONE", ToJson([n |-> mbad, events |-> N])>>)
+StrictReport  == l = N => PrintT(<<"SDONE", ToJson([n |-> sbad, events |-> N])>>)
 =============================================================================
